@@ -26,6 +26,7 @@ for l in sys.stdin:
             problems.append(l.strip())
         continue
     res, fn, ob = m.groups()
+    thread_modular = "|thread-modular" in fn
     fn = fn.split(".")[-1].split("|")[0]
     n += 1
     want = None
@@ -40,6 +41,17 @@ for l in sys.stdin:
         want = "FAIL" if fn in panics else "ok"
     elif ob.startswith("frame["):
         want = "ok"
+    elif ob.startswith("guard["):
+        want = "ok"
+        if fn == "readUnlocked" and "read-of-table" in ob: want = "FAIL"
+        if fn == "writeUnderReadLock" and "write-of-table" in ob: want = "FAIL"
+        if fn == "relock" and "not-already-held#2" in ob: want = "FAIL"
+    elif ob.startswith("race["):
+        want = "FAIL" if fn == "plainRead" else "ok"
+    elif ob.startswith("onwrite["):
+        want = "ok" if lab.startswith("ok-") else "FAIL"
+    if ob.startswith("ensures[") and lab.startswith("tm-bad-"):
+        want = "FAIL" if thread_modular else None
     if (fn, ob.split("[")[0]) in incomplete:
         want = None
     if want and res != want:
